@@ -83,7 +83,7 @@ def tokens(events, values):
 def concurrent_scripts(report, rng, pairs):
     """Two scripts at once (what the web front end does with a background script): each one's output is its own.
     Two ScriptJobs - two Machines - run as two threads under the deterministic scheduler, switching at every source line
-    of vm_io.py; every output event is tagged with the thread that produced it, and each script's events are validated
+    of vm_io.py, eval_stack.py, vm_math.py and call_stack.py; every output event is tagged with the thread that produced it, and each script's events are validated
     by TLC against Lang.tla from the initial state, exactly as if it had run alone."""
     from bardolph.controller.script_job import ScriptJob
     from harness import detsched, gen_lang, langcheck
@@ -102,7 +102,7 @@ def concurrent_scripts(report, rng, pairs):
         recs[1] = dict(gen_lang.make_record(0, recs[1]['seed'], 'print', 14, pop=pop))
         if 'get ' in recs[1]['text']:
             continue
-        sched = detsched.Sched(detsched.RandomWalk(rng.randrange(2 ** 30), rng.choice([0.1, 0.3, 0.6])), trace_files=('vm_io.py',), max_steps=40000)
+        sched = detsched.Sched(detsched.RandomWalk(rng.randrange(2 ** 30), rng.choice([0.1, 0.3, 0.6])), trace_files=('vm_io.py', 'eval_stack.py', 'vm_math.py', 'call_stack.py'), max_steps=80000)
         world = runner.World(pop)
         tagged = []
         world.rec.add = lambda *ev: tagged.append((getattr(sched.me(), 'tid', -1), tuple(ev)))
